@@ -40,23 +40,39 @@ func (c *Client) keepaliveLoop(ctx context.Context) error {
 	ticker.Stop()
 	defer ticker.Stop()
 
-	// pinging is 1 while a keep-alive PINGREQ waits for its PINGRESP.
+	// pinging is 1 while a keep-alive PINGREQ waits for its PINGRESP and 2 if
+	// a tick came meanwhile (the next PINGREQ is due as soon as the PINGRESP comes).
 	var pinging int32
 
 	for {
 		select {
 		case <-ticker.C:
 			if !atomic.CompareAndSwapInt32(&pinging, 0, 1) {
+				atomic.CompareAndSwapInt32(&pinging, 1, 2)
 				continue
 			}
 			// The ping must not block this loop: the loop has to follow the
 			// state changes while the ping is waiting for its PINGRESP.
 			c.group.Go(func() error {
-				defer atomic.StoreInt32(&pinging, 0)
-				if err := c.ping(true); err != nil && err != errKeepaliveStopped {
-					return err
+				for {
+					err := c.ping(true)
+					if err != nil {
+						atomic.StoreInt32(&pinging, 0)
+						if err == errKeepaliveStopped {
+							return nil
+						}
+						return err
+					}
+					if atomic.CompareAndSwapInt32(&pinging, 1, 0) {
+						return nil
+					}
+					// A tick came while we were waiting: it is not lost.
+					if c.state.Get() != util.StateActive || ctx.Err() != nil {
+						atomic.StoreInt32(&pinging, 0)
+						return nil
+					}
+					atomic.StoreInt32(&pinging, 1)
 				}
-				return nil
 			})
 
 		case state := <-c.stateChangeCh:
